@@ -79,6 +79,8 @@ def generate(rng, tier):
         cfg.append("tab_spaces = %d" % rng.choice([2, 3, 8]))
     if rng.chance(10):
         cfg.append("hard_tabs = true")
+    if rng.chance(12):
+        cfg.append("make_backup = true")  # in a discovered rustfmt.toml: must never make a read-only mode write
     if cfg:
         files["c/" + rng.choice(["rustfmt.toml", ".rustfmt.toml"])] = "\n".join(cfg) + "\n"
     return {
